@@ -148,6 +148,37 @@ pub fn cmd_pwstr(args: &[String]) {
         let sn = so_needs(&s, ops, mem * 1024);
         if (sn != 0) != needs { rep.fail("libsodium's needs_rehash differs from the specification's table (spec error)", json!({"row": r, "sodium": sn})); }
     }
+    // cost fields over their whole domain (PwStr.tla CostRows / CostStrings): no hashing, strings with a stand-in salt and hash
+    let fake = |m: &str, t: &str| format!("$argon2id$v=19$m={},t={},p=1${}${}", m, t, b64(&[7u8; 16]), b64(&[9u8; 32]));
+    if let Some(rows) = table.get("costrows").and_then(|x| x.as_array()) {
+        for r in rows {
+            let (m, t, ops, k) = (r["m"].as_str().unwrap(), r["t"].as_str().unwrap(), r["ops"].as_str().unwrap(), r["memKiB"].as_str().unwrap());
+            let (rem, needs) = (r["rem"].as_u64().unwrap() as usize, r["needs"].as_bool().unwrap());
+            let st = fake(m, t);
+            let opsn: u64 = ops.parse().unwrap();
+            let memb: usize = k.parse::<usize>().unwrap() * 1024 + rem;
+            rep.evaluations += 1;
+            rep.case(&format!("costrow|{}|{}|{}|{}|{}", m, t, ops, k, rem));
+            let sn = so_needs(&st, opsn, memb);
+            if sn < 0 || (sn != 0) != needs { rep.fail("libsodium's needs_rehash differs from the specification's cost table (specification error)", json!({"row": r, "sodium": sn})); continue; }
+            match catch(|| cp::crypto_pwhash_str_needs_rehash(&st, opsn, memb)) {
+                Ok(Ok(b)) => if b != needs { rep.fail("needs_rehash differs from the specification's cost table", json!({"row": r, "got": b, "string": st, "memlimit_bytes": memb})); },
+                Ok(Err(e)) => rep.fail("needs_rehash failed on a valid string", json!({"row": r, "err": format!("{:?}", e)})),
+                Err(pn) => rep.fail("needs_rehash panicked", json!({"row": r, "panic": pn})),
+            }
+        }
+    }
+    if let Some(rows) = table.get("coststrings").and_then(|x| x.as_array()) {
+        for r in rows {
+            let st = fake(r["m"].as_str().unwrap(), r["t"].as_str().unwrap());
+            rep.evaluations += 1;
+            match catch(|| PwHash::<Vec<u8>, Vec<u8>>::from_string(&st).map(|p| p.to_string())) {
+                Ok(Ok(again)) => if again != st { rep.fail("from_string then to_string does not return the same string", json!({"string": st, "reencoded": again, "producer": "cost domain"})); },
+                Ok(Err(e)) => rep.fail("PwHash::from_string rejects a valid string", json!({"string": st, "err": format!("{:?}", e)})),
+                Err(pn) => rep.fail("PwHash::from_string panicked", json!({"string": st, "panic": pn})),
+            }
+        }
+    }
     // strings produced by libsodium (both algorithms) verify under dryoc; strings produced by dryoc verify under libsodium
     for i in 0..40u64 {
         let pwl = rng.below(30) as usize;
